@@ -11,6 +11,8 @@ from .match import Expander, norm, text
 from .report import Report
 from .rules_client import _bind, _sources
 from .rules_request import groupby_inputs_sorted
+from .flat import flat
+from .loops import loop_views, stores_keyed_by
 from .schema import Schema
 from .source import AnalysisError, ClassInfo, Project, dotted, parent
 
@@ -103,19 +105,52 @@ def g_rules(p: Project, rep: Report):
         ok = roles == ["cli", "config", "defaults"]
         rep.check("G-R1", "merge_config:ChainMap(cli, config, defaults)", ok, f"sources are chained as {roles}: a lower-ranking source outranks a higher one" if not ok else "", gloc(p, c))
     # cli layer = only what was actually given (None filtered)
-    ens = _fn(p, "extractns")
-    rets = [r for r in own_nodes(ens) if isinstance(r, ast.Return) and r.value is not None]
-    ok = bool(rets) and all(isinstance(r.value, ast.DictComp) and [text(i) for g in r.value.generators for i in g.ifs] == ["v is not None"] for r in rets)
-    rep.check("G-R1", "extractns:only-options-given", ok, "" if ok else "the CLI layer is not `the options whose value is not None`", gloc(p, ens))
+    ens0 = _fn(p, "extractns")
+    ens = flat(p, OFXGET, ens0)
+    nsparam = params_of(ens)[0]
+    verdict = None
+    for lv in loop_views(ens):
+        if f"vars({nsparam})" not in text(lv.iter):
+            continue
+        tn = lv.target_names
+        for it, _c, k, v in stores_keyed_by(lv):
+            if not (len(tn) == 2 and isinstance(k, ast.Name) and k.id == tn[0] and isinstance(v, ast.Name) and v.id == tn[1]):
+                continue
+            if it.complex:
+                continue
+            verdict = sorted(it.filters) == [(f"{tn[1]} is None", False)]
+    if verdict is None:
+        rep.note("G-R1 undecided: extractns() does not copy vars(ns) through a recognisable loop / comprehension")
+    else:
+        rep.check("G-R1", "extractns:only-options-given", verdict, "" if verdict else "the CLI layer is not `the options whose value is not None`", gloc(p, ens0))
     # ofxhome insert position
-    mo = _fn(p, "merge_from_ofxhome")
-    ins = [c for c in own_nodes(mo) if isinstance(c, ast.Call) and isinstance(c.func, ast.Attribute) and c.func.attr == "insert" and text(c.func.value).endswith(".maps")]
-    ok = bool(ins) and all(text(c.args[0]) == "-1" for c in ins)
-    rep.check("G-R1", "merge_from_ofxhome:inserted-before-defaults", ok, f"the OFX Home lookup is inserted at position {[text(c.args[0]) for c in ins]}: it must rank below CLI, user file and FI database and above the defaults (index -1)" if not ok else "", gloc(p, mo))
+    mo0 = _fn(p, "merge_from_ofxhome")
+    mo = flat(p, OFXGET, mo0)
+    mox = Expander(mo)
+    ins = [c for c in own_nodes(mo) if isinstance(c, ast.Call) and isinstance(c.func, ast.Attribute) and c.func.attr == "insert" and text(c.func.value).endswith(".maps") and len(c.args) == 2]
+    if not ins:
+        rep.note("G-R1 undecided: merge_from_ofxhome() no longer inserts into the chain's maps")
+    else:
+        ok = all(mox.t(c.args[0]) == "-1" for c in ins)
+        rep.check("G-R1", "merge_from_ofxhome:inserted-before-defaults", ok, f"the OFX Home lookup is inserted at position {[mox.t(c.args[0]) for c in ins]}: it must rank below CLI, user file and FI database and above the defaults (index -1)" if not ok else "", gloc(p, ins[0]))
     for c in ins:
-        d = c.args[1]
-        ok = isinstance(d, ast.Dict) and all(isinstance(v, ast.Attribute) and text(v.value) == "lookup" and isinstance(k, ast.Constant) and v.attr == k.value for k, v in zip(d.keys, d.values))
-        rep.check("G-R1", "merge_from_ofxhome:values-from-lookup", ok, "" if ok else "OFX Home values are not stored under their own option names", gloc(p, c))
+        d = mox.x(c.args[1])
+        if isinstance(d, ast.Dict):
+            if not all(isinstance(v, ast.Attribute) and isinstance(k, ast.Constant) for k, v in zip(d.keys, d.values)):
+                rep.note("G-R1 undecided: OFX Home layer is a dict whose values are not plain attribute reads")
+                continue
+            ok = all(v.attr == k.value for k, v in zip(d.keys, d.values)) and len({text(v.value) for v in d.values}) == 1
+            rep.check("G-R1", "merge_from_ofxhome:values-from-lookup", ok, "" if ok else "OFX Home values are not stored under their own option names", gloc(p, c))
+        elif isinstance(d, ast.DictComp) and len(d.generators) == 1 and isinstance(d.generators[0].target, ast.Name) and not d.generators[0].ifs:
+            var = d.generators[0].target.id
+            v = d.value
+            same = isinstance(d.key, ast.Name) and d.key.id == var and isinstance(v, ast.Call) and isinstance(v.func, ast.Name) and v.func.id == "getattr" and len(v.args) == 2 and text(v.args[1]) == var
+            if same:
+                rep.check("G-R1", "merge_from_ofxhome:values-from-lookup", True, "", gloc(p, c))
+            else:
+                rep.note("G-R1 undecided: OFX Home layer is built by an unrecognised comprehension")
+        else:
+            rep.note("G-R1 undecided: OFX Home layer is not a dict display")
     # FI db then user file
     m = p.module(OFXGET)
     reads = [n for n in ast.walk(m.tree) if isinstance(n, ast.Call) and isinstance(n.func, ast.Attribute) and n.func.attr == "read" and text(n.func.value) == "USERCFG" and isinstance(parent(parent(n)), ast.Module)]
@@ -156,23 +191,34 @@ def g_rules(p: Project, rep: Report):
         ok = k in defaults or k in allowed_extra
         rep.check("G-R2", f"args[{k!r}]", ok, f"args[{k!r}] is read but DEFAULTS has no such key: KeyError whenever no higher source sets it" if not ok else "", gloc(p, node))
     rep.floor("G-R2", len(keys), 35, "distinct option keys read")
-    opts = _argparse_options(p)
+    from .argdecl import declared_options
+
+    decls = declared_options(p, OFXGET)
+    for d in decls:
+        if not d.resolved:
+            rep.note(f"G-R2/G-R6 undecided: an add_argument call at {gloc(p, d.call)} whose flags could not be folded")
+    opts = [(d.dest, d.action, d.has_default, d.default, d.call) for d in decls if d.resolved]
     for dest, action, has_default, dflt, call in opts:
         if dest in ("help", None):
             continue
         ok = dest in defaults or dest in allowed_extra
         rep.check("G-R2", f"argparse:{dest}", ok, f"command-line option '{dest}' has no entry in DEFAULTS" if not ok else "", gloc(p, call))
-    rep.floor("G-R2", len(opts), 35, "argparse options")
+    rep.floor("G-R2", len(decls), 35, "argparse options")
 
     rep.rule("G-R6", "absence on the command line must not outrank lower sources: every argparse option whose dest can also come from a configuration source has an effective argparse default of None (store_true/store_false/count need an explicit default=None)")
     for dest, action, has_default, dflt, call in opts:
         if dest not in conf:
             continue
+        from .source import UNK as _UNK
+
+        if has_default and dflt is _UNK:
+            rep.note(f"G-R6 undecided: default of --{dest} is not a constant")
+            continue
         if action in ("store_true", "store_false", "count", "store_const", "append_const"):
-            ok = has_default and isinstance(dflt, ast.Constant) and dflt.value is None
+            ok = has_default and dflt is None
         else:
-            ok = (not has_default) or (isinstance(dflt, ast.Constant) and dflt.value is None)
-        rep.check("G-R6", f"argparse:{dest}:default-None", ok, f"--{dest} (action={action}) yields {text(dflt) if dflt is not None else 'False/0'} when absent; extractns() keeps it, so the absent flag overrides the user file / FI database value" if not ok else "", gloc(p, call))
+            ok = (not has_default) or dflt is None
+        rep.check("G-R6", f"argparse:{dest}:default-None", ok, f"--{dest} (action={action}) yields {dflt if has_default else 'False/0'!r} when absent; extractns() keeps it, so the absent flag overrides the user file / FI database value" if not ok else "", gloc(p, call))
 
     rep.rule("G-R3", "every persistable option is a DEFAULTS key and its type has both a reader (read_config handlers) and a writer (arg2config handlers); the password is not persistable; the boolean writer emits tokens ConfigParser reads back with the same polarity; the list writer's separator is the list reader's")
     for tup in ("configurable_srvr", "configurable_user"):
@@ -184,47 +230,111 @@ def g_rules(p: Project, rep: Report):
     miss = sorted(want_persist - set(conf))
     rep.check("G-R3", "persistable-set-covers-property", not miss, f"options the property says persist are not persistable: {miss}" if miss else "", gloc(p, m.tree))
     types = {t.__name__ for t in conf.values()}
-    rc, a2c = _fn(p, "read_config"), _fn(p, "arg2config")
+    rc0, a2c0 = _fn(p, "read_config"), _fn(p, "arg2config")
+    rc, a2c = flat(p, OFXGET, rc0), flat(p, OFXGET, a2c0)
+    TYPE_NAMES = ("bool", "int", "list", "str", "float")
 
     def handler_keys(fn):
-        for st in own_statements(fn):
-            if isinstance(st, ast.Assign) and text(st.targets[0]) == "handlers" and isinstance(st.value, ast.Dict):
-                return {text(k): v for k, v in zip(st.value.keys, st.value.values)}
-        return {}
+        """the type-keyed dispatch dict of fn, whatever it is called: {type name: handler expr}"""
+        best = {}
+        for d in ast.walk(fn):
+            if isinstance(d, ast.Dict):
+                ks = {text(k): v for k, v in zip(d.keys, d.values) if k is not None}
+                if sum(1 for k in ks if k in TYPE_NAMES) >= 2 and len(ks) > len(best):
+                    best = ks
+        return best
+
+    def handler_body(fn, h):
+        """(parameter name, returned expression) of a handler given as a lambda or as the name of a nested function"""
+        if isinstance(h, ast.Lambda) and len(h.args.args) == 1:
+            return h.args.args[0].arg, h.body
+        if isinstance(h, ast.Name):
+            for st in ast.walk(fn):
+                if isinstance(st, ast.FunctionDef) and st.name == h.id and st is not fn:
+                    rs = [r for r in own_nodes(st) if isinstance(r, ast.Return) and r.value is not None]
+                    if len(rs) == 1 and st.args.args:
+                        return st.args.args[-1].arg, Expander(st).x(rs[0].value)
+        return None, None
 
     rk, wk = handler_keys(rc), handler_keys(a2c)
+    if not rk:
+        rep.note("G-R3 undecided: read_config() has no type-keyed table of getters")
+    if not wk:
+        rep.note("G-R3 undecided: arg2config() has no type-keyed table of writers")
     for t in sorted(types):
-        rep.check("G-R3", f"reader[{t}]", t in rk, f"no read_config handler for {t}: persisted {t} options are read back as something else" if t not in rk else "", gloc(p, rc))
-        rep.check("G-R3", f"writer[{t}]", t in wk, f"no arg2config handler for {t}" if t not in wk else "", gloc(p, a2c))
-    want_readers = {"bool": "proxy.getboolean", "int": "proxy.getint", "list": "proxy.getlist", "str": "proxy.get"}
+        if rk:
+            rep.check("G-R3", f"reader[{t}]", t in rk, f"no read_config handler for {t}: persisted {t} options are read back as something else" if t not in rk else "", gloc(p, rc0))
+        if wk:
+            rep.check("G-R3", f"writer[{t}]", t in wk, f"no arg2config handler for {t}" if t not in wk else "", gloc(p, a2c0))
+    want_readers = {"bool": "getboolean", "int": "getint", "list": "getlist", "str": "get"}
     for t, w in want_readers.items():
         if t in rk:
-            rep.check("G-R3", f"reader[{t}]:typed", text(rk[t]) == w, f"{t} options are read with {text(rk[t])}, expected {w}" if text(rk[t]) != w else "", gloc(p, rc))
+            h = rk[t]
+            if isinstance(h, ast.Attribute):
+                rep.check("G-R3", f"reader[{t}]:typed", h.attr == w, f"{t} options are read with {text(h)}, expected .{w}" if h.attr != w else "", gloc(p, rc0))
+            else:
+                rep.note(f"G-R3 undecided: reader for {t} is {text(h)[:60]}")
     # bool writer polarity
-    for st in own_statements(a2c):
-        if isinstance(st, ast.FunctionDef) and st.name == "write_bool":
-            d = [x for x in ast.walk(st) if isinstance(x, ast.Dict)]
-            ok = False
-            if d:
-                mp = {k.value: v.value for k, v in zip(d[0].keys, d[0].values) if isinstance(k, ast.Constant) and isinstance(v, ast.Constant)}
-                states = configparser.RawConfigParser.BOOLEAN_STATES
-                ok = set(mp) == {True, False} and all(states.get(str(v).lower()) is k for k, v in mp.items())
-            rep.check("G-R3", "writer[bool]:polarity", ok, "the boolean writer emits tokens that ConfigParser.getboolean reads back differently" if not ok else "", gloc(p, st))
-        if isinstance(st, ast.FunctionDef) and st.name == "write_list":
-            t = " ".join(text(r.value) for r in own_nodes(st) if isinstance(r, ast.Return) and r.value is not None)
+    if "bool" in wk:
+        par, body = handler_body(a2c, wk["bool"])
+        d = [x for x in ast.walk(body) if isinstance(x, ast.Dict)] if body is not None else []
+        if d:
+            mp = {k.value: v.value for k, v in zip(d[0].keys, d[0].values) if isinstance(k, ast.Constant) and isinstance(v, ast.Constant)}
+            states = configparser.RawConfigParser.BOOLEAN_STATES
+            ok = set(mp) == {True, False} and all(states.get(str(v).lower()) is k for k, v in mp.items())
+            rep.check("G-R3", "writer[bool]:polarity", ok, "the boolean writer emits tokens that ConfigParser.getboolean reads back differently" if not ok else "", gloc(p, a2c0))
+        elif isinstance(body, ast.IfExp) and all(isinstance(x, ast.Constant) for x in (body.body, body.orelse)) and text(body.test) == par:
+            states = configparser.RawConfigParser.BOOLEAN_STATES
+            ok = states.get(str(body.body.value).lower()) is True and states.get(str(body.orelse.value).lower()) is False
+            rep.check("G-R3", "writer[bool]:polarity", ok, "the boolean writer emits tokens that ConfigParser.getboolean reads back differently" if not ok else "", gloc(p, a2c0))
+        elif body is not None and isinstance(body, ast.Call) and text(body) in (f"str({par}).lower()", f"str({par})"):
+            rep.check("G-R3", "writer[bool]:polarity", True, "", gloc(p, a2c0))
+        else:
+            rep.note("G-R3 undecided: boolean writer not recognised")
+    if "list" in wk:
+        par, body = handler_body(a2c, wk["list"])
+        if body is None:
+            rep.note("G-R3 undecided: list writer not recognised")
+        else:
+            t = text(body).replace(par, "value") if par else text(body)
             ok = "str(value)" in t and "strip('[]')" in t
             cl = _fn(p, "convert_list")
             rt = " ".join(text(r.value) for r in own_nodes(cl) if isinstance(r, ast.Return) and r.value is not None)
             ok = ok and "split(',')" in rt and ".strip()" in rt
-            rep.check("G-R3", "writer[list]/reader[list]:separator", ok, "list writer and list reader disagree on the ', ' separated form" if not ok else "", gloc(p, st))
+            rep.check("G-R3", "writer[list]/reader[list]:separator", ok, "list writer and list reader disagree on the ', ' separated form" if not ok else "", gloc(p, a2c0))
     # mk_server_cfg writes every CONFIGURABLE option present, through arg2config, into the server's section
-    mk = _fn(p, "mk_server_cfg")
-    loops = [s for s in own_statements(mk) if isinstance(s, ast.For) and text(s.iter) == "CONFIGURABLE.items()"]
-    ok = bool(loops) and any(isinstance(x, ast.Assign) and text(x.targets[0]) == "cfg[opt]" and text(x.value) == "arg2config(opt, opt_type, value)" for l in loops for x in ast.walk(l))
-    rep.check("G-R3", "mk_server_cfg:writes-all-configurable", ok, "" if ok else "mk_server_cfg does not write cfg[opt] = arg2config(opt, opt_type, value) for every CONFIGURABLE option", gloc(p, mk))
+    mk0 = _fn(p, "mk_server_cfg")
+    mk = flat(p, OFXGET, mk0)
+    seen_loop, wrote = False, False
+    for lv in loop_views(mk):
+        if text(lv.iter) not in ("CONFIGURABLE.items()", "CONFIGURABLE", "CONFIGURABLE.keys()"):
+            continue
+        seen_loop = True
+        tn = lv.target_names
+        for it, cont, k, v in stores_keyed_by(lv, tn[0] if tn else None):
+            if isinstance(v, ast.Call) and text(v.func) == "arg2config" and v.args and text(v.args[0]) == tn[0]:
+                wrote = True
+    if not seen_loop:
+        rep.note("G-R3 undecided: mk_server_cfg() has no loop over CONFIGURABLE")
+    else:
+        rep.check("G-R3", "mk_server_cfg:writes-all-configurable", wrote, "" if wrote else "mk_server_cfg does not write cfg[opt] = arg2config(opt, opt_type, value) for every CONFIGURABLE option", gloc(p, mk0))
     # read_config reads every persisted option of the section
-    ok = any(isinstance(x, ast.DictComp) and [text(i) for g in x.generators for i in g.ifs] == ["opt in CONFIGURABLE"] and text(x.generators[0].iter) == "proxy" for x in ast.walk(rc))
-    rep.check("G-R3", "read_config:reads-all-configurable", ok, "" if ok else "read_config does not read every CONFIGURABLE option present in the section", gloc(p, rc))
+    rx = Expander(rc)
+    verdict = None
+    for lv in loop_views(rc):
+        itx = rx.t(lv.iter)
+        if not (itx.startswith(f"{params_of(rc)[0]}[") or text(lv.iter) == "proxy"):
+            continue
+        tn = lv.target_names
+        for it, cont, k, v in stores_keyed_by(lv, tn[0] if tn else None):
+            if it.complex:
+                continue
+            fs = sorted(set(it.filters))
+            verdict = fs == [(f"{tn[0]} in CONFIGURABLE", True)]
+    if verdict is None:
+        rep.note("G-R3 undecided: read_config() does not read the section through a recognisable loop / comprehension")
+    else:
+        rep.check("G-R3", "read_config:reads-all-configurable", verdict, "" if verdict else "read_config does not read every CONFIGURABLE option present in the section", gloc(p, rc0))
 
     rep.rule("G-R7", "an option is left out of the saved section only when the lower-ranking sources already yield the same value: it is compared with the FI-database value if there is one, else with the built-in default (never with the default alone, never with the default shadowing the FI database)")
     cmp_ok = None
@@ -413,40 +523,90 @@ def j_rules(p: Project, rep: Report):
         rep.check("J-R1", f"{fname}:--all-merges-before-reading-accounts", ok, "" if ok else "with --all the account lists are read before the discovered accounts are merged in", gloc(p, fn))
 
     rep.rule("J-R2", "discovered accounts: every account id taken from the account-information response is collected only under _acctIsActive, which is exactly `svcstatus == 'ACTIVE'` (a member of SVCSTATUSES); the dispatcher's keys are *ACCTINFO classes that ACCTINFO can contain; the grouped records are sorted by the group key first; bank accounts are filed under their own account type")
-    act = _fn(p, "_acctIsActive")
+    from .paths import return_paths
+
+    act0 = _fn(p, "_acctIsActive")
+    act = flat(p, OFXGET, act0)
     ap = params_of(act)[0]
-    rets = [r for r in own_nodes(act) if isinstance(r, ast.Return) and r.value is not None]
-    ok = bool(rets) and all(text(norm(r.value)).replace('"', "'") == f"{ap}.svcstatus == 'ACTIVE'" for r in rets) and isinstance(svc, (list, tuple)) and "ACTIVE" in svc
-    rep.check("J-R2", "_acctIsActive:svcstatus==ACTIVE", ok, f"_acctIsActive returns {[text(r.value) for r in rets]}: accounts that are not ACTIVE (PEND, AVAIL) are requested with --all" if not ok else "", gloc(p, act))
+    rp, _pl = return_paths(act, None, Expander(act))
+    got = sorted({v.replace('"', "'") for _q, v, _c in rp})
+    normed = sorted({text(norm(ast.parse(v, mode="eval").body)).replace('"', "'") for v in got})
+    ok = normed == [f"{ap}.svcstatus == 'ACTIVE'"] and isinstance(svc, (list, tuple)) and "ACTIVE" in svc
+    rep.check("J-R2", "_acctIsActive:svcstatus==ACTIVE", ok, f"_acctIsActive returns {got}: accounts that are not ACTIVE (PEND, AVAIL) are requested with --all" if not ok else "", gloc(p, act0))
     n_collect = 0
+    ID_ATTRS = ("acctid", "bankid", "brokerid")
     for fname in ("parse_bankacctinfos", "parse_invacctinfos", "parse_ccacctinfos"):
-        fn = _fn(p, fname)
+        fn0 = _fn(p, fname)
+        fn = flat(p, OFXGET, fn0, keep=("_acctIsActive",))
         prm = params_of(fn)[0]
-        for x in ast.walk(fn):
-            if isinstance(x, ast.Call) and isinstance(x.func, ast.Attribute) and x.func.attr == "append" and x.args and ("acctid" in text(x.args[0]) or "bankid" in text(x.args[0]) or "brokerid" in text(x.args[0])):
-                n_collect += 1
-                guard = parent(x)
-                found = False
-                while guard is not None and guard is not fn:
-                    if isinstance(guard, ast.If) and text(guard.test).startswith("_acctIsActive(") and any(any(y is x for y in ast.walk(b)) for b in guard.body):
-                        found = True
-                    guard = parent(guard)
-                rep.check("J-R2", f"{fname}:{text(x.args[0])}:only-if-active", found, f"{text(x.args[0])} is collected without the ACTIVE filter: inactive accounts are requested with --all" if not found else "", gloc(p, x))
-            if isinstance(x, (ast.ListComp, ast.GeneratorExp)) and "acctid" in text(x.elt):
-                n_collect += 1
-                g = x.generators[0]
-                ok = text(g.iter) == prm and [text(i) for i in g.ifs] == [f"_acctIsActive({g.target.id})"]
-                rep.check("J-R2", f"{fname}:{text(x.elt)}:only-if-active", ok, f"{text(x)}: account ids are collected without the ACTIVE filter" if not ok else "", gloc(p, x))
-        # iterates all the records it is given
-        loops = [s for s in own_statements(fn) if isinstance(s, ast.For)]
-        if loops:
-            ok = all(text(l.iter) == prm for l in loops)
-            rep.check("J-R2", f"{fname}:iterates-all-records", ok, "" if ok else "not every record of the response is looked at", gloc(p, fn))
+        ex = Expander(fn)
+        views = list(loop_views(fn))
+        # locals bound once to `[r for r in <param> if _acctIsActive(r)]`: the records that passed the filter
+        active_lists = set()
+        for st in own_statements(fn):
+            tgt = st.targets[0] if isinstance(st, ast.Assign) and len(st.targets) == 1 else (st.target if isinstance(st, ast.AnnAssign) else None)
+            v = getattr(st, "value", None)
+            if isinstance(tgt, ast.Name) and isinstance(v, (ast.ListComp, ast.GeneratorExp)) and len(v.generators) == 1:
+                g = v.generators[0]
+                if text(g.iter) == prm and isinstance(g.target, ast.Name) and text(v.elt) == g.target.id and [text(i) for i in g.ifs] == [f"_acctIsActive({g.target.id})"]:
+                    if len(local_defs(fn).get(tgt.id, [])) == 1:
+                        active_lists.add(tgt.id)
+            if isinstance(tgt, ast.Name) and isinstance(v, ast.Call) and text(v.func) in ("list", "tuple") and len(v.args) == 1 and isinstance(v.args[0], ast.Call) and text(v.args[0].func) == "filter" and len(v.args[0].args) == 2 and text(v.args[0].args[0]) == "_acctIsActive" and text(v.args[0].args[1]) == prm:
+                if len(local_defs(fn).get(tgt.id, [])) == 1:
+                    active_lists.add(tgt.id)
+        sliced = False
+        for lv in views:
+            it = text(lv.iter)
+            src = "all" if it == prm else ("active" if it in active_lists else None)
+            if isinstance(lv.iter, ast.Subscript) and text(lv.iter.value) == prm:
+                sliced = True
+            tn = lv.target_names
+            if src is None or len(tn) != 1:
+                continue
+            rv = tn[0]
+            for item in lv.items:
+                node = item.node
+                # the comprehension that only builds an active list is not a collection site
+                if isinstance(node, ast.expr) and text(node) == rv:
+                    continue
+                exprs = []
+                if isinstance(node, ast.expr):
+                    exprs.append(node)
+                else:
+                    for c in ast.walk(node):
+                        if isinstance(c, ast.Call) and isinstance(c.func, ast.Attribute) and c.func.attr in ("append", "extend", "add", "insert") and c.args:
+                            exprs.append(c.args[-1])
+                        if isinstance(c, ast.Assign) and isinstance(c.targets[0], ast.Subscript):
+                            exprs.append(c.value)
+                for e in exprs:
+                    et = ex.t(e)
+                    hit = [a for a in ID_ATTRS if et.endswith(f".{a}") or f".{a}" in et]
+                    if not hit or not (et.startswith(f"{rv}.") or f"{rv}." in et):
+                        continue
+                    n_collect += 1
+                    label = f"{fname}:{hit[0]}:only-if-active"
+                    if src == "active":
+                        rep.check("J-R2", label, True, "", gloc(p, e))
+                    elif (f"bool(_acctIsActive({rv}))", True) in item.filters:
+                        rep.check("J-R2", label, True, "", gloc(p, e))
+                    elif item.complex:
+                        rep.note(f"J-R2 undecided: {fname} collects {et} under a condition that is not a plain conjunction")
+                    else:
+                        rep.check("J-R2", label, False, f"{et} is collected without the ACTIVE filter: inactive accounts are requested with --all", gloc(p, e))
+        rep.check("J-R2", f"{fname}:iterates-all-records", not sliced, "" if not sliced else "not every record of the response is looked at", gloc(p, fn0))
     rep.floor("J-R2", n_collect, 5, "account collection sites")
     # keys under which accounts are filed
-    pb = _fn(p, "parse_bankacctinfos")
-    ok = any(isinstance(x, ast.Subscript) and text(x.slice) == "inf.accttype.lower()" for x in ast.walk(pb))
-    rep.check("J-R2", "parse_bankacctinfos:filed-under-own-type", ok, "" if ok else "bank accounts are not filed under their own account type (lower-cased)", gloc(p, pb))
+    pb0 = _fn(p, "parse_bankacctinfos")
+    pb = flat(p, OFXGET, pb0, keep=("_acctIsActive",))
+    pbx = Expander(pb)
+    recvars = {n_ for lv in loop_views(pb) for n_ in lv.target_names}
+    keyed = [pbx.t(x.slice) for x in ast.walk(pb) if isinstance(x, ast.Subscript) and "accttype" in pbx.t(x.slice)]
+    keyed += [pbx.t(k) for d in ast.walk(pb) if isinstance(d, ast.DictComp) for k in [d.key] if "accttype" in pbx.t(k)]
+    ok = bool(keyed) and all(any(k == f"{rv}.accttype.lower()" for rv in recvars) for k in keyed)
+    if not keyed:
+        rep.note("J-R2 undecided: parse_bankacctinfos files accounts under a key not recognisably derived from the account type")
+    else:
+        rep.check("J-R2", "parse_bankacctinfos:filed-under-own-type", ok, "" if ok else f"bank accounts are filed under {sorted(set(keyed))}, not under their own account type (lower-cased)", gloc(p, pb0))
     for fname, key in (("parse_invacctinfos", "investment"), ("parse_ccacctinfos", "creditcard")):
         fn = _fn(p, fname)
         ok = any(isinstance(x, ast.Constant) and x.value == key for x in ast.walk(fn))
@@ -466,13 +626,22 @@ def j_rules(p: Project, rep: Report):
         miss = sorted({"BANKACCTINFO", "CCACCTINFO", "INVACCTINFO"} - have)
         rep.check("J-R2", "_merge_acctinfo:dispatcher-covers-statement-accounts", not miss, f"no parser for {miss}: such accounts are never discovered" if miss else "", gloc(p, d))
     n = groupby_inputs_sorted(p, OFXGET, ma, rep, "J-R2", "_merge_acctinfo")
-    rep.floor("J-R2", n, 1, "groupby calls")
+    if n == 0:
+        rep.note("J-R2 undecided: _merge_acctinfo groups the records without itertools.groupby")
     ok = any(isinstance(c, ast.Call) and text(c.func) == "extract_acctinfos" for c in own_nodes(ma))
     rep.check("J-R2", "_merge_acctinfo:all-records-extracted", ok, "" if ok else "records do not come from extract_acctinfos(markup)", gloc(p, ma))
     ea = _fn(p, "extract_acctinfos")
-    rets = [r for r in own_nodes(ea) if isinstance(r, ast.Return) and r.value is not None]
-    ok = bool(rets) and all(text(r.value) == "itertools.chain.from_iterable(acctinfors)" for r in rets)
-    rep.check("J-R2", "extract_acctinfos:flattens-all", ok, "" if ok else "extract_acctinfos does not return every *ACCTINFO of every ACCTINFO", gloc(p, ea))
+    eaf = flat(p, OFXGET, ea)
+    eax = Expander(eaf)
+    rets = [eax.x(r.value) for r in own_nodes(eaf) if isinstance(r, ast.Return) and r.value is not None]
+    good = bool(rets) and all(isinstance(v, ast.Call) and text(v.func).endswith("chain.from_iterable") and len(v.args) == 1 and text(v.args[0]).endswith(".acctinfors") for v in rets)
+    partial = any(isinstance(x, (ast.Subscript, ast.Slice)) and text(getattr(x, "value", x)).endswith("acctinfors") for v in rets for x in ast.walk(v)) or any(text(v).endswith(".acctinfors") for v in rets)
+    if good:
+        rep.check("J-R2", "extract_acctinfos:flattens-all", True, "", gloc(p, ea))
+    elif partial or not rets:
+        rep.check("J-R2", "extract_acctinfos:flattens-all", False, "extract_acctinfos does not return every *ACCTINFO of every ACCTINFO", gloc(p, ea))
+    else:
+        rep.note("J-R2 undecided: extract_acctinfos returns " + "; ".join(text(v)[:80] for v in rets))
     # init_client: each OFXClient parameter from the like-named option
     ic = _fn(p, "init_client")
     alias = {"userid": "user", "prettyprint": "pretty", "close_elements": "unclosedelements"}
